@@ -3,7 +3,28 @@
 
    An entry is (term, payload), payload = PData x | PCfg voters.  A node always
    acts on the LAST configuration entry of its own log (committed or not), V0 if
-   there is none: [cfg_of V0 (log n)].  No crash, no snapshot, no durable prefix.
+   there is none: [cfg_of V0 (log n)].  No snapshot.
+
+   Durable prefix: [flushed n] = length of the durable prefix of [log n]
+   (flushed <= length log).  A leader appends WITHOUT flushing (do_win,
+   do_append leave [flushed] alone); it flushes up to k before it commits k
+   (do_commit: flushed := max flushed k, which covers its ghost self-ack).
+   A follower that accepts a request (do_recv) flushes before acknowledging,
+   but ONLY if the request changed its log:
+       flushed' := if the log changed then length newlog else flushed
+   (a heartbeat, or a request whose entries are all present, flushes nothing).
+   An unflushed entry can only sit in the log of the node that appended it
+   itself as leader (invariant d_unfl), and such a node never answers a request
+   of that term, so whatever is acknowledged is durable all the same (d_ack).
+   The follower's commit index is advanced within the durable prefix only:
+       commit' := max commit (min (min rcommit last) flushed')   last = prevIdx + |ents|
+   (the real follower advances it to prevIdx / the last index of the request
+   only if that entry carries the leader's term, resp. after a log change and
+   flush: both lie within flushed'; the observed commit index may lag).
+   SFlush flushes more at any time.  SCrash n c: the node loses the unflushed
+   tail (log := firstn flushed log) and all volatile state (role Follower, got,
+   matchIdx, startIdx; commit := any c <= old commit); cur and vote persist.
+   Acknowledgements already filed stay in [acks].
 
    Pools (never consumed: loss, duplication, reordering, arbitrary delay):
      started  vote requests (term, candidate, candidate's log)      (also ghost)
@@ -31,6 +52,7 @@ Record nstate := mkN {
   role     : Role;
   got      : list N;          (* voters counted in this election *)
   log      : list entry;
+  flushed  : nat;             (* length of the durable prefix of log *)
   commit   : nat;
   matchIdx : list (N * nat);  (* leader: acknowledgements received *)
   startIdx : nat              (* leader: index of the no-op of its term *)
@@ -72,8 +94,11 @@ Definition prev_ok (lg : list entry) (pi : nat) (pt : N) : bool :=
 Definition match_ge (m : list (N * nat)) (v : N) (k : nat) : Prop :=
   exists j, In (v, j) m /\ (k <= j)%nat.
 
+Definition log_eqb (a b : list entry) : bool :=
+  if list_eq_dec entry_eq_dec a b then true else false.
+
 Definition init : state :=
-  mkS (fun _ => mkN 0 None Follower [] [] 0 [] 0) [] [] [] [] [] [] [] [].
+  mkS (fun _ => mkN 0 None Follower [] [] 0 0 [] 0) [] [] [] [] [] [] [] [].
 
 Section Steps.
 Variable V0 : list N.
@@ -83,7 +108,7 @@ Definition cfg (s : state) (n : N) : list N := cfg_of V0 (log (st s n)).
 (* election timeout *)
 Definition do_start (n : N) (s : state) : state :=
   let x := st s n in
-  mkS (upd (st s) n (mkN (cur x + 1) (Some n) Candidate [] (log x) (commit x) [] 0))
+  mkS (upd (st s) n (mkN (cur x + 1) (Some n) Candidate [] (log x) (flushed x) (commit x) [] 0))
       ((cur x + 1, n, log x) :: started s) ((cur x + 1, n, n) :: grants s)
       (appends s) (acks s) (elected s) (created s) (committed s) (cmts s).
 
@@ -91,7 +116,7 @@ Definition do_start (n : N) (s : state) : state :=
 Definition do_grant (v t c : N) (s : state) : state :=
   let x := st s v in
   mkS (upd (st s) v (mkN t (Some c) (if cur x <? t then Follower else role x)
-                         (if cur x <? t then [] else got x) (log x) (commit x)
+                         (if cur x <? t then [] else got x) (log x) (flushed x) (commit x)
                          (matchIdx x) (startIdx x)))
       (started s) ((t, v, c) :: grants s)
       (appends s) (acks s) (elected s) (created s) (committed s) (cmts s).
@@ -99,14 +124,14 @@ Definition do_grant (v t c : N) (s : state) : state :=
 (* a node sees a higher term *)
 Definition do_stepdown (n t : N) (s : state) : state :=
   let x := st s n in
-  mkS (upd (st s) n (mkN t None Follower [] (log x) (commit x) [] 0))
+  mkS (upd (st s) n (mkN t None Follower [] (log x) (flushed x) (commit x) [] 0))
       (started s) (grants s)
       (appends s) (acks s) (elected s) (created s) (committed s) (cmts s).
 
 (* candidate c counts the vote of v *)
 Definition do_count (c v : N) (s : state) : state :=
   let x := st s c in
-  mkS (upd (st s) c (mkN (cur x) (vote x) (role x) (v :: got x) (log x) (commit x)
+  mkS (upd (st s) c (mkN (cur x) (vote x) (role x) (v :: got x) (log x) (flushed x) (commit x)
                          (matchIdx x) (startIdx x)))
       (started s) (grants s)
       (appends s) (acks s) (elected s) (created s) (committed s) (cmts s).
@@ -115,7 +140,7 @@ Definition do_count (c v : N) (s : state) : state :=
 Definition do_win (c : N) (s : state) : state :=
   let x := st s c in
   let L := log x ++ [(cur x, PData 0)] in
-  mkS (upd (st s) c (mkN (cur x) (vote x) Leader (got x) L (commit x) [] (length L)))
+  mkS (upd (st s) c (mkN (cur x) (vote x) Leader (got x) L (flushed x) (commit x) [] (length L)))
       (started s) (grants s)
       (appends s) (acks s) ((cur x, c, log x) :: elected s) (L :: created s)
       (committed s) (cmts s).
@@ -124,7 +149,7 @@ Definition do_win (c : N) (s : state) : state :=
 Definition do_append (l : N) (p : payload) (s : state) : state :=
   let x := st s l in
   let L := log x ++ [(cur x, p)] in
-  mkS (upd (st s) l (mkN (cur x) (vote x) (role x) (got x) L (commit x)
+  mkS (upd (st s) l (mkN (cur x) (vote x) (role x) (got x) L (flushed x) (commit x)
                          (matchIdx x) (startIdx x)))
       (started s) (grants s)
       (appends s) (acks s) (elected s) (L :: created s) (committed s) (cmts s).
@@ -140,16 +165,18 @@ Definition do_send (l : N) (pi k c : nat) (s : state) : state :=
 Definition do_recv (f : N) (m : areq) (s : state) : state :=
   let x := st s f in
   let last := (rprevIdx m + length (rents m))%nat in
+  let lg' := recv_log (log x) (rprevIdx m) (rents m) in
+  let fl' := if log_eqb lg' (log x) then flushed x else length lg' in
   mkS (upd (st s) f (mkN (rterm m) (if cur x <? rterm m then None else vote x) Follower []
-                         (recv_log (log x) (rprevIdx m) (rents m))
-                         (Nat.max (commit x) (Nat.min (rcommit m) last)) [] 0))
+                         lg' fl'
+                         (Nat.max (commit x) (Nat.min (Nat.min (rcommit m) last) fl')) [] 0))
       (started s) (grants s) (appends s)
       ((rterm m, f, last) :: acks s) (elected s) (created s) (committed s) (cmts s).
 
 (* leader l reads the acknowledgement (cur l, v, i) *)
 Definition do_ack (l v : N) (i : nat) (s : state) : state :=
   let x := st s l in
-  mkS (upd (st s) l (mkN (cur x) (vote x) (role x) (got x) (log x) (commit x)
+  mkS (upd (st s) l (mkN (cur x) (vote x) (role x) (got x) (log x) (flushed x) (commit x)
                          ((v, i) :: matchIdx x) (startIdx x)))
       (started s) (grants s)
       (appends s) (acks s) (elected s) (created s) (committed s) (cmts s).
@@ -157,7 +184,8 @@ Definition do_ack (l v : N) (i : nat) (s : state) : state :=
 (* leader l advances its commit index to k *)
 Definition do_commit (l : N) (k : nat) (s : state) : state :=
   let x := st s l in
-  mkS (upd (st s) l (mkN (cur x) (vote x) (role x) (got x) (log x) k
+  mkS (upd (st s) l (mkN (cur x) (vote x) (role x) (got x) (log x)
+                         (Nat.max (flushed x) k) k
                          (matchIdx x) (startIdx x)))
       (started s) (grants s) (appends s)
       ((cur x, l, k) :: acks s) (elected s) (created s)
@@ -166,6 +194,23 @@ Definition do_commit (l : N) (k : nat) (s : state) : state :=
        | None => committed s
        end)
       ((cur x, k, log x) :: cmts s).
+
+(* node n flushes its log up to index k *)
+Definition do_flush (n : N) (k : nat) (s : state) : state :=
+  let x := st s n in
+  mkS (upd (st s) n (mkN (cur x) (vote x) (role x) (got x) (log x) k (commit x)
+                         (matchIdx x) (startIdx x)))
+      (started s) (grants s) (appends s) (acks s) (elected s) (created s)
+      (committed s) (cmts s).
+
+(* node n crashes and restarts: the unflushed tail and the volatile state are
+   lost; the commit index is rebuilt (any value up to the old one) *)
+Definition do_crash (n : N) (c : nat) (s : state) : state :=
+  let x := st s n in
+  mkS (upd (st s) n (mkN (cur x) (vote x) Follower [] (firstn (flushed x) (log x))
+                         (flushed x) c [] 0))
+      (started s) (grants s) (appends s) (acks s) (elected s) (created s)
+      (committed s) (cmts s).
 
 (* gb = true: the reconfiguration guard (b) "the leader has committed an entry
    of its own term" is in force (the model); gb = false: the flawed variant. *)
@@ -205,7 +250,10 @@ Inductive gstep (gb : bool) (s : state) : state -> Prop :=
     term_at (log (st s l)) k = cur (st s l) ->
     majority (cfg s l) Q ->
     (forall v, In v Q -> v = l \/ match_ge (matchIdx (st s l)) v k) ->
-    gstep gb s (do_commit l k s).
+    gstep gb s (do_commit l k s)
+| SFlush n k :
+    (flushed (st s n) <= k <= length (log (st s n)))%nat -> gstep gb s (do_flush n k s)
+| SCrash n c : (c <= commit (st s n))%nat -> gstep gb s (do_crash n c s).
 
 Definition step := gstep true.
 
